@@ -529,6 +529,17 @@ func legacyXorRules(o *Obligation, f *ssa.Function, fset *token.FileSet) {
 		}
 		nForm := pf.w.lin(ret.Results[0])
 		minZero := pf.hasEq(min, true)
+		if !minZero && min.OK {
+			// n < 1, n <= 0, !(n > 0): the same for a length
+			for _, l := range pf.lits {
+				if l.A.Eq {
+					continue
+				}
+				if (l.Pol && l.A.Form.eq(min.scale(-1).add(linConst(1), 1))) || (!l.Pol && l.A.Form.eq(min)) {
+					minZero = true
+				}
+			}
+		}
 		// dispatch calls on the path
 		type disp struct {
 			call *ssa.Call
